@@ -546,6 +546,17 @@ impl MultiDriver {
                 (format!("{:?}", h), make_driver(&c))
             })
             .collect();
+        if cfg.kind == Kind::Wtlfu && cfg.no_estimator_ops {
+            // no access is ever recorded, so every estimate is 0 whatever the KeyHasher maps keys to:
+            // identical verdicts, hence identical structure
+            for kh in [crate::hashers::KHKind::Identity, crate::hashers::KHKind::Spread, crate::hashers::KHKind::Constant] {
+                if kh != cfg.kh {
+                    let mut c = cfg.clone();
+                    c.kh = kh;
+                    legs.push((format!("KeyHasher {:?}", kh), make_driver(&c)));
+                }
+            }
+        }
         if hashers.len() > 1 && cfg.addr_noise == 0 {
             // same hasher, different heap layout: every node (and every table) at another address
             for level in [1u8, 2] {
